@@ -292,7 +292,14 @@ Record WF (cs : list change) : Prop := {
   (* the child table recorded in a foreign key of a dropped table is that table *)
   wf_child : forall t fks f, In (DropTable t fks) cs -> In f fks -> t_name (f_tab f) = t_name t;
   (* a declared foreign key points at a desired-state table: not at one the change set drops *)
-  wf_decl : forall x f, In x cs -> In f (added_fks x) -> ~ In (t_name (f_ref f)) (flat_map drops cs)
+  wf_decl : forall x f, In x cs -> In f (added_fks x) -> ~ In (t_name (f_ref f)) (flat_map drops cs);
+  (* the keys of a dropped table have distinct symbols; a ModifyTable drops / re-points a symbol at most once *)
+  wf_rm : forall x, In x cs ->
+            match x with
+            | AddTable _ _ => True
+            | DropTable _ fks => NoDup (map f_sym fks)
+            | ModifyTable _ tcs => NoDup (flat_map tc_rm tcs)
+            end
 }.
 
 (* does the change set remove the live foreign key e = (child, symbol, parent)? *)
@@ -312,24 +319,15 @@ Record consistent (c : cat) (cs : list change) : Prop := {
                 In (t_name (f_ref f)) (c_tabs c) \/ In (t_name (f_ref f)) (flat_map adds cs);
   (* every live foreign key from another table to a dropped table is dropped by the change set *)
   cn_live : forall e, In e (c_fks c) -> In (snd e) (flat_map drops cs) -> fst (fst e) <> snd e ->
-              exists x, In x cs /\ nm x = fst (fst e) /\ covers x e
+              exists x, In x cs /\ nm x = fst (fst e) /\ covers x e;
+  (* the keys of a dropped table, and the keys a ModifyTable drops or re-points, are live *)
+  cn_rm_live : forall x, In x cs ->
+                 match x with
+                 | AddTable _ _ => True
+                 | DropTable t fks => forall f, In f fks -> exists p, In (t_name t, f_sym f, p) (c_fks c)
+                 | ModifyTable t tcs => forall s, In s (flat_map tc_rm tcs) -> exists p, In (t_name t, s, p) (c_fks c)
+                 end
 }.
-
-(* the exception: a re-pointed foreign key (ModifyForeignKey) whose new parent is created by the change set *)
-Definition no_repoint_to_added (cs : list change) : Prop :=
-  forall t tcs from to, In (ModifyTable t tcs) cs -> In (ModifyFK from to) tcs ->
-    ~ In (t_name (f_ref to)) (flat_map adds cs).
-
-(* exact form: such a re-pointed key is harmless when the created parent comes earlier in the change list *)
-Definition repoint_ordered (cs : list change) : Prop :=
-  forall pre t tcs post from to, cs = pre ++ ModifyTable t tcs :: post -> In (ModifyFK from to) tcs ->
-    In (t_name (f_ref to)) (flat_map adds cs) -> In (t_name (f_ref to)) (flat_map adds pre).
-
-Lemma no_repoint_ordered cs : no_repoint_to_added cs -> repoint_ordered cs.
-Proof.
-  intros H pre t tcs post from to E Hin Ha. exfalso.
-  apply (H t tcs from to); [rewrite E; apply in_or_app; right; left; reflexivity|exact Hin|exact Ha].
-Qed.
 
 Lemma adds_sub_names l n : In n (flat_map adds l) -> In n (map nm l).
 Proof.
@@ -359,6 +357,39 @@ Qed.
 
 Lemma NoDup_of_names l : NoDup (map nm l) -> NoDup l.
 Proof. apply NoDup_map_inv. Qed.
+
+Lemma NoDup_keys (K : change -> list (nat * nat)) l :
+  NoDup (map nm l) -> (forall x, In x l -> NoDup (K x)) ->
+  (forall x k, In x l -> In k (K x) -> fst k = nm x) -> NoDup (flat_map K l).
+Proof.
+  induction l as [|x l IH]; simpl; intros Hn Hk Hf; [constructor|].
+  inversion Hn as [|? ? Hx Hn']; subst. apply NoDup_app_intro.
+  - apply Hk. left. reflexivity.
+  - apply IH; [exact Hn'|intros y Hy; apply Hk; right; exact Hy|intros y k Hy; apply Hf; right; exact Hy].
+  - intros k H1 H2. apply in_flat_map in H2. destruct H2 as [y [Hy H2]].
+    apply Hx. apply in_map_iff. exists y. split; [|exact Hy].
+    rewrite <- (Hf x k (or_introl eq_refl) H1). symmetry. apply (Hf y k (or_intror Hy) H2).
+Qed.
+
+Lemma NoDup_map_pair {A} (a : nat) (l : list A) : NoDup l -> NoDup (map (pair a) l).
+Proof.
+  induction l as [|x l IH]; simpl; intros H; [constructor|]. inversion H; subst. constructor; [|apply IH; assumption].
+  intros Hin. apply in_map_iff in Hin. destruct Hin as [y [E Hy]]. inversion E; subst. contradiction.
+Qed.
+
+Lemma NoDup_map_filter {A B} (g : A -> B) (p : A -> bool) l : NoDup (map g l) -> NoDup (map g (filter p l)).
+Proof.
+  induction l as [|x l IH]; simpl; intros H; [constructor|]. inversion H; subst.
+  destruct (p x); simpl; [|apply IH; assumption]. constructor; [|apply IH; assumption].
+  intros Hin. apply H2. apply in_map_iff in Hin. destruct Hin as [y [E Hy]]. apply filter_In in Hy.
+  apply in_map_iff. exists y. tauto.
+Qed.
+
+Lemma rm_keys_fst x k : In k (rm_keys x) -> fst k = nm x.
+Proof.
+  destruct x as [t fks|t fks|t tcs]; simpl; intros H; try (destruct H; fail).
+  apply in_map_iff in H. destruct H as [s [<- _]]. reflexivity.
+Qed.
 
 (** * DetachCycles: what SortChanges receives *)
 Definition kle (sorted : list nat) (x y : change) : Prop := sort_key sorted x <= sort_key sorted y.
@@ -545,9 +576,12 @@ Section WithWF.
         apply orb_true_iff in Hd. destruct Hd as [Hd|Hd].
         + apply Nat.eqb_eq in Hd. simpl in Hnn. contradiction.
         + apply existsb_exists in Hd. destruct Hd as [tc [Htc Hd]].
-          destruct tc as [f| | |]; try discriminate. apply Nat.eqb_eq in Hd.
+          assert (Hex : exists f, In f (tc_added tc) /\ t_name (f_ref f) = t_name t2).
+          { destruct tc as [f| |from to|]; try discriminate; apply Nat.eqb_eq in Hd;
+              eexists; (split; [left; reflexivity|exact Hd]). }
+          destruct Hex as [f [Hftc Hd']]. clear Hd. rename Hd' into Hd.
           assert (Hf : In f (added_fks (ModifyTable t1 tcs1))).
-          { simpl. apply in_flat_map. exists (AddFK f). split; [exact Htc|left; reflexivity]. }
+          { simpl. apply in_flat_map. exists tc. split; [exact Htc|exact Hftc]. }
           assert (Hlt := decl_key_lt (ModifyTable t1 tcs1) f Hx Hf). simpl in Hlt. simpl in Hnn.
           rewrite Hd in Hlt. specialize (Hlt (fun E => Hnn (eq_sym E))).
           unfold ra, sort_key in *. simpl in *. lia.
@@ -617,6 +651,14 @@ Section WithWF.
           unfold ra, sort_key. simpl. lia.
         * unfold nm in Hny; simpl in Hny. split; [simpl; rewrite Hcov; rewrite (proj2 (Nat.eqb_eq _ _) Hny); reflexivity|].
           unfold ra. simpl. pose proof (key_bound (ModifyTable t tcs)). unfold Koff. lia.
+      - (* explicitly dropped keys: once, and live *)
+        apply (Permutation_NoDup (Permutation_flat_map rm_keys perm_part)).
+        apply NoDup_keys; [apply (wf_names cs HWF)| |intros x k _; apply rm_keys_fst].
+        intros x Hx. pose proof (wf_rm cs HWF x Hx) as Hw. destruct x as [t fks|t fks|t tcs]; simpl; try constructor.
+        apply NoDup_map_pair. exact Hw.
+      - intros k Hk. apply (proj1 (fm_in _ _)) in Hk. apply in_flat_map in Hk. destruct Hk as [x [Hx Hk]].
+        pose proof (cn_rm_live c cs Hcons x Hx) as Hl. destruct x as [t fks|t fks|t tcs]; simpl in Hk; try (destruct Hk; fail).
+        apply in_map_iff in Hk. destruct Hk as [s0 [<- Hs]]. apply (Hl s0 Hs).
     Qed.
 
     Lemma acyc_replay : exists c', replay (partition_changes S) c = Some c'.
@@ -872,9 +914,6 @@ Proof.
   destruct (filter (fun c => negb (is_addfk c)) tcs); [destruct Hin|left; reflexivity].
 Qed.
 
-Lemma NoDup_app_r {A} (l1 l2 : list A) : NoDup (l1 ++ l2) -> NoDup l2.
-Proof. induction l1 as [|a l1 IH]; simpl; intros H; [exact H|]. inversion H; subst. apply IH. assumption. Qed.
-
 Lemma adds_unique l t1 f1 t2 f2 :
   NoDup (flat_map adds l) -> In (AddTable t1 f1) l -> In (AddTable t2 f2) l -> t_name t1 = t_name t2 ->
   AddTable t1 f1 = AddTable t2 f2.
@@ -899,38 +938,88 @@ Proof.
   - apply IH; try assumption. apply NoDup_app_r in Hn. exact Hn.
 Qed.
 
-Lemma NoDup_split_unique {A} (p1 q1 p2 q2 : list A) x :
-  p1 ++ x :: q1 = p2 ++ x :: q2 -> NoDup (p1 ++ x :: q1) -> p1 = p2.
+(* a ModifyTable that declares a key to a table depends on the creation of that table *)
+Lemma modify_depends_on_add t tcs f t2 fks2 :
+  In f (flat_map tc_added tcs) -> t_name (f_ref f) = t_name t2 ->
+  dependsOn (ModifyTable t tcs) (AddTable t2 fks2) = true.
 Proof.
-  revert p2. induction p1 as [|a p1 IH]; intros p2 E Hn.
-  - destruct p2 as [|b p2]; [reflexivity|]. simpl in E. injection E as Eb Eq. subst b. exfalso.
-    simpl in Hn. inversion Hn as [|? ? Hx _]; subst. apply Hx. apply in_or_app. right. left. reflexivity.
-  - destruct p2 as [|b p2]; simpl in E; injection E as Eb Eq.
-    + subst a. exfalso. simpl in Hn. inversion Hn as [|? ? Hx _]; subst. apply Hx. apply in_or_app. right. left. reflexivity.
-    + subst b. f_equal. apply (IH p2 Eq). simpl in Hn. inversion Hn; assumption.
+  intros Hf Hn. simpl. apply orb_true_iff. right. apply existsb_exists.
+  apply in_flat_map in Hf. destruct Hf as [tc [Htc Hf]]. exists tc. split; [exact Htc|].
+  destruct tc as [g|g|from to|k]; simpl in Hf; try (destruct Hf; fail); destruct Hf as [<-|[]];
+    apply Nat.eqb_eq; exact Hn.
 Qed.
 
-Lemma adds_filter_nd l : flat_map adds (filter (fun x => negb (is_drop x)) l) = flat_map adds l.
+(* rank witnessing that dependsOn is acyclic on a detached plan *)
+Definition rho_c (x : change) : nat :=
+  match x with AddTable _ _ => 0 | ModifyTable _ _ => 1 | DropTable _ _ => 2 end.
+
+(* the keys the detached plan drops explicitly, per source change *)
+Definition pkeys (src : change) : list (nat * nat) :=
+  match src with
+  | AddTable _ _ => []
+  | DropTable t fks => map (pair (t_name t)) (map f_sym (ext_of t fks))
+  | ModifyTable t tcs => map (pair (t_name t)) (flat_map tc_rm tcs)
+  end.
+
+Lemma tc_rm_mapdrop l : flat_map tc_rm (map DropFK l) = map f_sym l.
+Proof. induction l as [|a l IH]; simpl; [reflexivity|]. rewrite IH. reflexivity. Qed.
+
+Lemma tc_rm_addfks l : (forall tc, In tc l -> is_addfk tc = true) -> flat_map tc_rm l = [].
 Proof.
-  induction l as [|x l IH]; simpl; [reflexivity|]. destruct x; simpl; rewrite IH; reflexivity.
+  induction l as [|a l IH]; simpl; intros H; [reflexivity|].
+  rewrite IH by (intros tc Htc; apply H; right; exact Htc).
+  pose proof (H a (or_introl eq_refl)) as Ha. destruct a; try discriminate. reflexivity.
 Qed.
 
-Lemma planned_split cs1 t tcs cs2 : filter not_addfk tcs <> [] ->
-  exists B, partition_changes (detachReferences (cs1 ++ ModifyTable t tcs :: cs2)) =
-            filter (fun x => negb (is_drop x)) (flat_map det_planned cs1) ++ ModifyTable t (filter not_addfk tcs) :: B.
+Lemma tc_rm_rest tcs : flat_map tc_rm (filter not_addfk tcs) = flat_map tc_rm tcs.
 Proof.
-  intros Hne. unfold partition_changes, detachReferences.
-  assert (Ep : det_planned (ModifyTable t tcs) = [ModifyTable t (filter not_addfk tcs)]).
-  { simpl. unfold not_addfk in *. destruct (filter (fun c => negb (is_addfk c)) tcs); [congruence|reflexivity]. }
-  rewrite flat_map_app.
-  change (flat_map det_planned (ModifyTable t tcs :: cs2))
-    with (det_planned (ModifyTable t tcs) ++ flat_map det_planned cs2).
-  rewrite Ep. rewrite <- !app_assoc. rewrite filter_app.
-  change (filter (fun c => negb (is_drop c)) ([ModifyTable t (filter not_addfk tcs)] ++
-            flat_map det_planned cs2 ++ flat_map det_deferred (cs1 ++ ModifyTable t tcs :: cs2)))
-    with (ModifyTable t (filter not_addfk tcs) :: filter (fun c => negb (is_drop c)) (
-            flat_map det_planned cs2 ++ flat_map det_deferred (cs1 ++ ModifyTable t tcs :: cs2))).
-  rewrite <- app_assoc. simpl. eexists. reflexivity.
+  induction tcs as [|a l IH]; simpl; [reflexivity|].
+  destruct a; simpl; rewrite IH; reflexivity.
+Qed.
+
+Lemma rm_keys_planned src : flat_map rm_keys (det_planned src) = pkeys src.
+Proof.
+  destruct src as [t fks|t fks|t tcs]; simpl.
+  - destruct (filter _ fks); reflexivity.
+  - unfold ext_of. destruct (filter (fun f => negb (ptr_eqb (f_ref f) t)) fks) as [|e ext] eqn:E; [reflexivity|].
+    change (flat_map rm_keys [ModifyTable t (map DropFK (e :: ext))])
+      with (map (pair (t_name t)) (flat_map tc_rm (map DropFK (e :: ext))) ++ []).
+    rewrite app_nil_r. rewrite (tc_rm_mapdrop (e :: ext)). reflexivity.
+  - pose proof (tc_rm_rest tcs) as Hr. unfold not_addfk in Hr.
+    destruct (filter (fun c => negb (is_addfk c)) tcs) as [|e rest] eqn:E.
+    + simpl in Hr. rewrite <- Hr. reflexivity.
+    + rewrite <- Hr.
+      change (flat_map rm_keys [ModifyTable t (e :: rest)])
+        with (map (pair (t_name t)) (flat_map tc_rm (e :: rest)) ++ []).
+      rewrite app_nil_r. reflexivity.
+Qed.
+
+Lemma rm_keys_deferred src : flat_map rm_keys (det_deferred src) = [].
+Proof.
+  destruct src as [t fks|t fks|t tcs]; simpl.
+  - destruct (filter (fun f => negb (ptr_eqb (f_ref f) t)) fks) as [|e ext] eqn:E; [reflexivity|].
+    assert (Hz : flat_map tc_rm (map AddFK (e :: ext)) = []).
+    { apply tc_rm_addfks. intros tc Htc. apply in_map_iff in Htc. destruct Htc as [g [<- _]]. reflexivity. }
+    change (flat_map rm_keys [ModifyTable t (map AddFK (e :: ext))])
+      with (map (pair (t_name t)) (flat_map tc_rm (map AddFK (e :: ext))) ++ []).
+    rewrite Hz. reflexivity.
+  - destruct (filter _ fks); reflexivity.
+  - destruct (filter is_addfk tcs) as [|e rest] eqn:E; [reflexivity|].
+    assert (Hz : flat_map tc_rm (e :: rest) = []).
+    { rewrite <- E. apply tc_rm_addfks. intros tc Htc. apply filter_In in Htc. tauto. }
+    change (flat_map rm_keys [ModifyTable t (e :: rest)])
+      with (map (pair (t_name t)) (flat_map tc_rm (e :: rest)) ++ []).
+    rewrite Hz. reflexivity.
+Qed.
+
+Lemma detach_rm_keys cs : flat_map rm_keys (detachReferences cs) = flat_map pkeys cs.
+Proof.
+  unfold detachReferences. rewrite flat_map_app.
+  assert (H1 : forall l, flat_map rm_keys (flat_map det_planned l) = flat_map pkeys l).
+  { induction l as [|x l IH]; simpl; [reflexivity|]. rewrite flat_map_app, rm_keys_planned, IH. reflexivity. }
+  assert (H2 : forall l, flat_map rm_keys (flat_map det_deferred l) = []).
+  { induction l as [|x l IH]; simpl; [reflexivity|]. rewrite flat_map_app, rm_keys_deferred, IH. reflexivity. }
+  rewrite H1, H2, app_nil_r. reflexivity.
 Qed.
 
 Section Cyclic.
@@ -938,7 +1027,6 @@ Section Cyclic.
   Variable c : cat.
   Hypothesis HWF : WF cs.
   Hypothesis Hcons : consistent c cs.
-  Hypothesis Hex : repoint_ordered cs.
 
   Let L := detachReferences cs.
 
@@ -968,7 +1056,8 @@ Section Cyclic.
     intros Hs <- <- Hf Hp. apply (wf_ptr cs HWF src f Hs Hf Hp).
   Qed.
 
-  Lemma cyc_edges x y : In x L -> In y L -> x <> y -> dependsOn x y = true -> rc y < rc x.
+  (* on a detached plan dependsOn only goes ModifyTable -> AddTable and DropTable -> ModifyTable *)
+  Lemma cyc_edges x y : In x L -> In y L -> x <> y -> dependsOn x y = true -> rho_c y < rho_c x.
   Proof.
     intros Hx Hy Hne Hd.
     destruct (detach_image cs x Hx) as [sx [Hsx Ix]]. destruct (detach_image cs y Hy) as [sy [Hsy Iy]].
@@ -977,7 +1066,7 @@ Section Cyclic.
       destruct Ix as [Ix|Ix]; [apply pimage_rank in Ix|apply dimage_rank in Ix];
       destruct Iy as [Iy|Iy]; [apply pimage_rank in Iy|apply dimage_rank in Iy| apply pimage_rank in Iy|apply dimage_rank in Iy];
       intuition congruence. }
-    destruct x as [t1 f1|t1 f1|t1 tcs1]; destruct y as [t2 f2|t2 f2|t2 tcs2]; simpl in Hd; try discriminate.
+    destruct x as [t1 f1|t1 f1|t1 tcs1]; destruct y as [t2 f2|t2 f2|t2 tcs2]; simpl in Hd; try discriminate; simpl; try lia.
     - (* Add / Add: the kept keys are self references *)
       exfalso. apply refTo_ex in Hd. destruct Hd as [f [Hf Hr]].
       assert (Hself : t_name (f_ref f) = t_name t1).
@@ -998,39 +1087,15 @@ Section Cyclic.
       { destruct Iy as [Iy|Iy]; inversion Iy; subst. destruct (H1 f Hf) as [Hin Hp].
         apply (self_name (DropTable t2 fks) t2 fks f Hsy eq_refl eq_refl Hin Hp). }
       apply Hne. apply (drops_unique L); [exact cyc_drops_nodup|exact Hx|exact Hy|congruence].
-    - (* Drop / Modify *)
-      simpl. destruct (forallb is_addfk tcs2); lia.
-    - (* Modify / Add *)
-      simpl. destruct (forallb is_addfk tcs1) eqn:Ef; [lia|exfalso].
-      apply orb_true_iff in Hd. destruct Hd as [Hd|Hd].
-      + apply Nat.eqb_eq in Hd. specialize (Hsame Hd).
-        destruct Ix as [Ix|Ix]; inversion Ix; subst; destruct Iy as [Iy|Iy]; inversion Iy; subst.
-        (* only the deferred ADD FOREIGN KEY modification shares the source of an AddTable *)
-        simpl in Ef. rewrite forallb_addfk_mapadd in Ef. discriminate.
-      + apply existsb_exists in Hd. destruct Hd as [tc [Htc Hd]]. destruct tc as [f| | |]; try discriminate.
-        destruct Ix as [Ix|Ix]; inversion Ix; subst.
-        * apply in_map_iff in Htc. destruct Htc as [g [Hg _]]. discriminate.
-        * apply filter_In in Htc. destruct Htc as [_ Htc]. discriminate.
-        * rewrite forallb_addfk_mapadd in Ef. discriminate.
-        * rewrite forallb_addfk_fks in Ef. discriminate.
   Qed.
 
-  Lemma cyc_backward : backward (partition_changes L).
+  (* no created or modified table waits for a drop *)
+  Lemma cyc_closed x y : In x L -> In y L -> is_drop x = false -> x <> y -> dependsOn x y = true -> is_drop y = false.
   Proof.
-    apply (ranked_backward rc); [apply detach_sorted| |].
-    - apply (Permutation_NoDup (Permutation_sym (partition_perm L))). exact cyc_NoDup.
-    - intros x y Hx Hy. apply (proj1 (partition_in L x)) in Hx. apply (proj1 (partition_in L y)) in Hy.
-      apply cyc_edges; assumption.
+    intros Hx Hy Hdx Hne Hd. pose proof (cyc_edges x y Hx Hy Hne Hd) as Hr.
+    destruct x; destruct y; simpl in *; try reflexivity; try discriminate; lia.
   Qed.
 
-  Lemma fmP {B} (f : change -> list B) n : In n (flat_map f (partition_changes L)) <-> In n (flat_map f L).
-  Proof.
-    pose proof (Permutation_flat_map f (partition_perm L)) as Hp. split; intros H.
-    - apply (Permutation_in _ Hp H).
-    - apply (Permutation_in _ (Permutation_sym Hp) H).
-  Qed.
-
-  (* the declared keys of an image are declared keys of its source *)
   Lemma pimage_added src x f : pimage src x -> In f (added_fks x) -> In f (added_fks src).
   Proof.
     intros H Hf. destruct H; simpl in *.
@@ -1051,101 +1116,150 @@ Section Cyclic.
       apply in_flat_map. exists tc. split; [tauto|exact Hf].
   Qed.
 
-  (* a table created by the change set is created at rank 0 of the detached plan *)
-  Lemma created_rank0 n : In n (flat_map adds cs) ->
-    exists y, In y (partition_changes L) /\ adds y = [n] /\ rc y = 0.
-  Proof.
-    intros H. apply in_adds_iff in H. destruct H as [t [fks [Hin <-]]].
-    destruct (ex_planned_add cs t fks Hin) as [fks' Hy].
-    exists (AddTable t fks'). split; [apply partition_in; exact Hy|split; reflexivity].
-  Qed.
+  (** what SortChanges returns on the detached list meets every obligation *)
+  Section Out.
+    Variable out : list change.
+    Hypothesis Hperm : Permutation (partition_changes L) out.
+    Hypothesis Hdeps : forall pre x post y, out = pre ++ x :: post -> In y (partition_changes L) -> y <> x ->
+      dependsOn x y = true -> In y pre.
+    Hypothesis Hbehind : forall pre x post y, out = pre ++ x :: post -> is_drop x = false -> In y pre -> is_drop y = false.
 
-  Lemma cyc_split : split_ok (partition_changes L) c.
-  Proof.
-    apply (ranked_split rc); try apply detach_sorted.
-    - apply (Permutation_NoDup (Permutation_sym (Permutation_flat_map adds (partition_perm L)))). exact cyc_adds_nodup.
-    - intros n Hn. apply (proj1 (fmP adds n)) in Hn. unfold L in Hn. rewrite detach_adds in Hn.
-      apply (cn_adds c cs Hcons n Hn).
-    - apply (Permutation_NoDup (Permutation_sym (Permutation_flat_map drops (partition_perm L)))). exact cyc_drops_nodup.
-    - intros n Hn. apply (proj1 (fmP drops n)) in Hn. unfold L in Hn. rewrite detach_drops in Hn.
-      apply (cn_drops c cs Hcons n Hn).
-    - (* declared foreign keys *)
-      intros x f Hx Hf. apply (proj1 (partition_in L x)) in Hx.
-      destruct (detach_image cs x Hx) as [src [Hsrc Im]].
-      assert (Hfs : In f (added_fks src)).
-      { destruct Im as [Im|Im]; [apply (pimage_added src x f Im Hf)|apply (dimage_added src x f Im Hf)]. }
-      split.
-      + intros Hd. apply (proj1 (fmP drops _)) in Hd. unfold L in Hd. rewrite detach_drops in Hd.
+    Lemma outL x : In x out <-> In x L.
+    Proof.
+      rewrite <- (partition_in L x). split; intros H.
+      - apply (Permutation_in _ (Permutation_sym Hperm) H).
+      - apply (Permutation_in _ Hperm H).
+    Qed.
+
+    Lemma fmO {B} (f : change -> list B) : Permutation (flat_map f L) (flat_map f out).
+    Proof.
+      eapply perm_trans; [apply Permutation_flat_map; apply Permutation_sym; apply partition_perm|].
+      apply Permutation_flat_map. exact Hperm.
+    Qed.
+
+    (* the creation of a table of the change set stands before any ModifyTable that declares a key to it *)
+    Lemma created_before pre t tcs post f :
+      out = pre ++ ModifyTable t tcs :: post -> In f (flat_map tc_added tcs) ->
+      In (t_name (f_ref f)) (flat_map adds cs) -> In (t_name (f_ref f)) (flat_map adds pre).
+    Proof.
+      intros Eo Hf Ha. apply in_adds_iff in Ha. destruct Ha as [t2 [fks2 [Hin Hn]]].
+      destruct (ex_planned_add cs t2 fks2 Hin) as [fks' Hy].
+      assert (HyP : In (AddTable t2 fks') (partition_changes L)) by (apply partition_in; exact Hy).
+      pose proof (Hdeps pre _ post (AddTable t2 fks') Eo HyP ltac:(discriminate)
+                   (modify_depends_on_add t tcs f t2 fks' Hf (eq_sym Hn))) as Hpre.
+      apply in_adds_iff. exists t2, fks'. split; [exact Hpre|exact Hn].
+    Qed.
+
+    Lemma cyc_out_split : split_ok out c.
+    Proof.
+      constructor.
+      - apply (Permutation_NoDup (fmO adds)). exact cyc_adds_nodup.
+      - intros n Hn. apply (Permutation_in _ (Permutation_sym (fmO adds))) in Hn. unfold L in Hn.
+        rewrite detach_adds in Hn. apply (cn_adds c cs Hcons n Hn).
+      - apply (Permutation_NoDup (fmO drops)). exact cyc_drops_nodup.
+      - intros n Hn. apply (Permutation_in _ (Permutation_sym (fmO drops))) in Hn. unfold L in Hn.
+        rewrite detach_drops in Hn. apply (cn_drops c cs Hcons n Hn).
+      - (* no declared key points at a dropped table *)
+        intros x f Hx Hf Hd. apply (proj1 (outL x)) in Hx.
+        apply (Permutation_in _ (Permutation_sym (fmO drops))) in Hd. unfold L in Hd. rewrite detach_drops in Hd.
+        destruct (detach_image cs x Hx) as [src [Hsrc Im]].
+        assert (Hfs : In f (added_fks src)).
+        { destruct Im as [Im|Im]; [apply (pimage_added src x f Im Hf)|apply (dimage_added src x f Im Hf)]. }
         apply (wf_decl cs HWF src f Hsrc Hfs Hd).
-      + destruct (cn_parent c cs Hcons src f Hsrc Hfs) as [H|H]; [left; exact H|right].
-        destruct Im as [Im|Im]; inversion Im; subst.
-        * (* created table: the kept keys are self references *)
-          right. destruct (H0 f Hf) as [Hin Hp]. simpl.
-          rewrite (self_name (AddTable t fks) t fks f Hsrc eq_refl eq_refl Hin Hp). reflexivity.
-        * exfalso. simpl in Hf. apply in_flat_map in Hf. destruct Hf as [tc [Htc Hf]]. apply in_map_iff in Htc.
-          destruct Htc as [g [<- _]]. destruct Hf.
-        * (* in-place modification: only a re-pointed key can be declared here; its created parent
-             comes earlier in the change list, hence earlier among the in-place changes of the plan *)
-          left. right. intros pre' post' El.
-          simpl in Hf. apply in_flat_map in Hf. destruct Hf as [tc [Htc Hf]]. apply filter_In in Htc.
-          destruct Htc as [Htc Hna]. destruct tc as [g|g|from to|k]; simpl in Hf; try (destruct Hf; fail).
-          -- discriminate.
-          -- destruct Hf as [<-|[]].
-             destruct (in_split _ _ Hsrc) as [cs1 [cs2 Ecs]].
-             pose proof (Hex cs1 t tcs cs2 from to Ecs Htc H) as Hbefore.
-             assert (Hne : filter not_addfk tcs <> []) by assumption.
-             destruct (planned_split cs1 t tcs cs2 Hne) as [B EB].
-             unfold L in El. rewrite Ecs in El. rewrite EB in El.
-             assert (Epre : filter (fun x => negb (is_drop x)) (flat_map det_planned cs1) = pre').
-             { apply (NoDup_split_unique _ _ _ _ _ El). rewrite <- EB, <- Ecs.
-               apply (Permutation_NoDup (Permutation_sym (partition_perm L))). exact cyc_NoDup. }
-             rewrite <- Epre, adds_filter_nd, planned_adds. exact Hbefore.
-        * left. left. destruct (created_rank0 _ H) as [y [Hy [Ha Hr]]]. exists y. split; [exact Hy|split; [exact Ha|]].
-          rewrite Hr. simpl. rewrite forallb_addfk_mapadd. lia.
-        * destruct Hf.
-        * left. left. destruct (created_rank0 _ H) as [y [Hy [Ha Hr]]]. exists y. split; [exact Hy|split; [exact Ha|]].
-          rewrite Hr. simpl. rewrite forallb_addfk_fks. lia.
-    - (* modified tables *)
-      intros t tcs Hx. apply (proj1 (partition_in L _)) in Hx.
-      destruct (detach_image cs _ Hx) as [src [Hsrc Im]]. split.
-      + intros y Hy Hd. apply (proj1 (partition_in L y)) in Hy.
-        destruct (detach_image cs y Hy) as [sy [_ Iy]].
-        assert (Hry : rc y = 2).
-        { destruct Iy as [Iy|Iy]; [destruct (pimage_rank sy y Iy) as [_ [E _]]; congruence|].
-          destruct (dimage_rank sy y Iy) as [[[_ E]|[E _]] _]; [congruence|exact E]. }
-        rewrite Hry. simpl. destruct (forallb is_addfk tcs); lia.
-      + destruct Im as [Im|Im]; inversion Im; subst.
-        * left. apply (cn_drops c cs Hcons). apply in_drops_iff. exists t, fks. split; [exact Hsrc|reflexivity].
-        * left. apply (cn_mods c cs Hcons t tcs0 Hsrc).
-        * right. assert (Ha : In (t_name t) (flat_map adds cs)) by (apply in_adds_iff; exists t, fks; split; [exact Hsrc|reflexivity]).
-          destruct (created_rank0 _ Ha) as [y [Hy [Hay Hr]]]. exists y. split; [exact Hy|split; [exact Hay|]].
-          rewrite Hr. simpl. rewrite forallb_addfk_mapadd. lia.
-        * left. apply (cn_mods c cs Hcons t tcs0 Hsrc).
-    - (* dropped tables *)
-      intros p fks e Hx He Hp Hne. apply (proj1 (partition_in L _)) in Hx.
-      assert (Hpd : In (snd e) (flat_map drops cs)).
-      { rewrite Hp. rewrite <- detach_drops. apply in_drops_iff. exists p, fks. split; [exact Hx|reflexivity]. }
-      assert (Hne' : fst (fst e) <> snd e) by (rewrite Hp; exact Hne).
-      destruct (cn_live c cs Hcons e He Hpd Hne') as [y [Hy [Hny Hcov]]].
-      destruct y as [t fks0|t fks0|t tcs]; simpl in Hcov; [destruct Hcov| |]; unfold nm in Hny; simpl in Hny.
-      + destruct Hcov as [f [Hf [Hs Hr]]].
-        assert (Hpf : ptr_eqb (f_ref f) t = false).
-        { apply (ptr_false cs HWF (DropTable t fks0) f Hy Hf). unfold nm. simpl. congruence. }
-        destruct (ex_planned_dropfk cs t fks0 f Hy Hf Hpf) as [Hin Hfe].
-        exists (ModifyTable t (map DropFK (ext_of t fks0))). split; [apply partition_in; exact Hin|]. split.
-        * simpl. rewrite (proj2 (Nat.eqb_eq _ _) Hny). simpl. apply existsb_exists. exists (DropFK f).
-          split; [apply in_map; exact Hfe|simpl; apply Nat.eqb_eq; exact Hs].
-        * simpl. rewrite forallb_addfk_mapdrop; [lia|]. intros E. rewrite E in Hfe. destruct Hfe.
-      + apply existsb_exists in Hcov. destruct Hcov as [tc [Htc Hrm]].
-        assert (Hna : is_addfk tc = false) by (destruct tc; simpl in *; congruence).
-        destruct (ex_planned_rest cs t tcs tc Hy Htc Hna) as [Hin Hfe].
-        exists (ModifyTable t (filter not_addfk tcs)). split; [apply partition_in; exact Hin|]. split.
-        * simpl. rewrite (proj2 (Nat.eqb_eq _ _) Hny). simpl. apply existsb_exists. exists tc. split; assumption.
-        * simpl. rewrite forallb_addfk_rest; [lia|]. intros E. rewrite E in Hfe. destruct Hfe.
-  Qed.
+      - (* declared keys *)
+        intros pre x post f Eo Hf.
+        assert (Hx : In x L) by (apply outL; rewrite Eo; apply in_or_app; right; left; reflexivity).
+        destruct (detach_image cs x Hx) as [src [Hsrc Im]].
+        assert (Hfs : In f (added_fks src)).
+        { destruct Im as [Im|Im]; [apply (pimage_added src x f Im Hf)|apply (dimage_added src x f Im Hf)]. }
+        destruct (cn_parent c cs Hcons src f Hsrc Hfs) as [H|H]; [left; exact H|right].
+        destruct x as [t fks|t fks|t tcs].
+        + (* created table: the kept keys are self references *)
+          right. destruct Im as [Im|Im]; inversion Im; subst.
+          match goal with Hall : forall g, In g fks -> _ |- _ => destruct (Hall f Hf) as [Hin Hp] end. simpl.
+          match goal with Hs : In (AddTable t ?fks0) cs |- _ =>
+            rewrite (self_name (AddTable t fks0) t fks0 f Hs eq_refl eq_refl Hin Hp) end. reflexivity.
+        + destruct Hf.
+        + left. apply (created_before pre t tcs post f Eo Hf H).
+      - (* modified tables *)
+        intros pre t tcs post Eo. split.
+        + intros Hin. apply in_drops_iff in Hin. destruct Hin as [t' [fks' [Hin _]]].
+          pose proof (Hbehind pre _ post _ Eo eq_refl Hin) as Hd. discriminate.
+        + assert (Hx : In (ModifyTable t tcs) L) by (apply outL; rewrite Eo; apply in_or_app; right; left; reflexivity).
+          destruct (detach_image cs _ Hx) as [src [Hsrc Im]].
+          pose proof (conj Eo I) as EoP. clear Eo.
+          destruct Im as [Im|Im]; inversion Im; subst; destruct EoP as [Eo _].
+          * left. apply (cn_drops c cs Hcons). apply in_drops_iff. exists t, fks. split; [exact Hsrc|reflexivity].
+          * left. apply (cn_mods c cs Hcons t tcs0 Hsrc).
+          * (* the deferred ADD FOREIGN KEY of a created table depends on its creation *)
+            right. destruct (ex_planned_add cs t fks Hsrc) as [fks' Hy].
+            assert (HyP : In (AddTable t fks') (partition_changes L)) by (apply partition_in; exact Hy).
+            assert (Hdep : dependsOn (ModifyTable t (map AddFK (ext_of t fks))) (AddTable t fks') = true).
+            { unfold dependsOn, same_table. rewrite Nat.eqb_refl. reflexivity. }
+            pose proof (Hdeps pre _ post (AddTable t fks') Eo HyP ltac:(discriminate) Hdep) as Hpre.
+            apply in_adds_iff. exists t, fks'. split; [exact Hpre|reflexivity].
+          * left. apply (cn_mods c cs Hcons t tcs0 Hsrc).
+      - (* dropped tables: the change that removes a live incoming key is no drop, hence stands before *)
+        intros pre p fks post e Eo He Hp Hne.
+        assert (Hx : In (DropTable p fks) L) by (apply outL; rewrite Eo; apply in_or_app; right; left; reflexivity).
+        assert (Hpd : In (snd e) (flat_map drops cs)).
+        { rewrite Hp. rewrite <- detach_drops. apply in_drops_iff. exists p, fks. split; [exact Hx|reflexivity]. }
+        assert (Hne' : fst (fst e) <> snd e) by (rewrite Hp; exact Hne).
+        destruct (cn_live c cs Hcons e He Hpd Hne') as [y [Hy [Hny Hcov]]].
+        assert (Hrem : exists z, In z L /\ is_drop z = false /\ removes (fst (fst e)) (snd (fst e)) z = true).
+        { destruct y as [t fks0|t fks0|t tcs]; simpl in Hcov; [destruct Hcov| |]; unfold nm in Hny; simpl in Hny.
+          - destruct Hcov as [f [Hf [Hs Hr]]].
+            assert (Hpf : ptr_eqb (f_ref f) t = false).
+            { apply (ptr_false cs HWF (DropTable t fks0) f Hy Hf). unfold nm. simpl. congruence. }
+            destruct (ex_planned_dropfk cs t fks0 f Hy Hf Hpf) as [Hin Hfe].
+            exists (ModifyTable t (map DropFK (ext_of t fks0))). split; [exact Hin|]. split; [reflexivity|].
+            simpl. rewrite (proj2 (Nat.eqb_eq _ _) Hny). simpl. apply existsb_exists. exists (DropFK f).
+            split; [apply in_map; exact Hfe|simpl; apply Nat.eqb_eq; exact Hs].
+          - apply existsb_exists in Hcov. destruct Hcov as [tc [Htc Hrm]].
+            assert (Hna : is_addfk tc = false) by (destruct tc; simpl in *; congruence).
+            destruct (ex_planned_rest cs t tcs tc Hy Htc Hna) as [Hin Hfe].
+            exists (ModifyTable t (filter not_addfk tcs)). split; [exact Hin|]. split; [reflexivity|].
+            simpl. rewrite (proj2 (Nat.eqb_eq _ _) Hny). simpl. apply existsb_exists. exists tc. split; assumption. }
+        destruct Hrem as [z [Hz [Hzd Hzr]]]. exists z. split; [|exact Hzr].
+        apply outL in Hz. rewrite Eo in Hz. apply in_app_or in Hz. destruct Hz as [Hz|[Hz|Hz]]; [exact Hz| |].
+        + subst z. discriminate.
+        + exfalso. destruct (in_split _ _ Hz) as [q1 [q2 Eq]].
+          assert (Eo' : out = (pre ++ DropTable p fks :: q1) ++ z :: q2) by (rewrite Eo, Eq, <- app_assoc; reflexivity).
+          assert (Hdd : is_drop (DropTable p fks) = false).
+          { apply (Hbehind _ z q2 _ Eo' Hzd). apply in_or_app. right. left. reflexivity. }
+          discriminate.
+      - (* explicitly dropped keys: once *)
+        apply (Permutation_NoDup (fmO rm_keys)). unfold L. rewrite detach_rm_keys.
+        apply NoDup_keys; [apply (wf_names cs HWF)| |].
+        + intros x Hx. pose proof (wf_rm cs HWF x Hx) as Hw. destruct x as [t fks|t fks|t tcs]; simpl; try constructor.
+          * apply NoDup_map_pair. unfold ext_of. apply NoDup_map_filter. exact Hw.
+          * apply NoDup_map_pair. exact Hw.
+        + intros x k _ Hk. destruct x as [t fks|t fks|t tcs]; simpl in Hk; try (destruct Hk; fail);
+            apply in_map_iff in Hk; destruct Hk as [s0 [<- _]]; reflexivity.
+      - (* ... and live *)
+        intros k Hk. apply (Permutation_in _ (Permutation_sym (fmO rm_keys))) in Hk. unfold L in Hk.
+        rewrite detach_rm_keys in Hk. apply in_flat_map in Hk. destruct Hk as [x [Hx Hk]].
+        pose proof (cn_rm_live c cs Hcons x Hx) as Hl. destruct x as [t fks|t fks|t tcs]; simpl in Hk; try (destruct Hk; fail).
+        + apply in_map_iff in Hk. destruct Hk as [s0 [<- Hs]]. apply in_map_iff in Hs. destruct Hs as [f [<- Hf]].
+          apply filter_In in Hf. apply (Hl f (proj1 Hf)).
+        + apply in_map_iff in Hk. destruct Hk as [s0 [<- Hs]]. apply (Hl s0 Hs).
+    Qed.
+  End Out.
 
-  Lemma cyc_replay : exists c', replay (partition_changes L) c = Some c'.
-  Proof. apply (split_replay_ok _ _ cyc_split). Qed.
+  (* SortChanges on the detached list *)
+  Lemma cyc_sorted_out :
+    exists out, SortChanges L = Some out /\ Permutation L out /\ split_ok out c.
+  Proof.
+    destruct (SortChanges_ranked rho_c L) as [out [Hs [Hp [Hd Hb]]]].
+    - apply (Permutation_NoDup (Permutation_sym (partition_perm L))). exact cyc_NoDup.
+    - intros x y Hx Hy. apply (proj1 (partition_in L x)) in Hx. apply (proj1 (partition_in L y)) in Hy.
+      apply cyc_edges; assumption.
+    - exists out. split; [exact Hs|]. split.
+      + eapply perm_trans; [apply Permutation_sym; apply partition_perm|exact Hp].
+      + apply (cyc_out_split out Hp Hd). apply Hb.
+        intros x y Hx Hy. apply (proj1 (partition_in L x)) in Hx. apply (proj1 (partition_in L y)) in Hy.
+        apply cyc_closed; assumption.
+  Qed.
 End Cyclic.
 
 (** * The three statements *)
@@ -1201,98 +1315,40 @@ Proof.
 Qed.
 
 (** safe: for every list SortChanges may receive from DetachCycles (any tie-break of sort.Slice) *)
-Theorem safe_ordered cs c S :
-  WF cs -> consistent c cs ->
-  (sortMap cs = SMCycle -> repoint_ordered cs) ->
-  detach_spec cs S ->
-  SortChanges S = Some (partition_changes S) /\ split_ok (partition_changes S) c.
+Theorem safe_split cs c S :
+  WF cs -> consistent c cs -> detach_spec cs S ->
+  exists out, SortChanges S = Some out /\ Permutation S out /\ split_ok out c.
 Proof.
-  intros HWF Hcons Hex. unfold detach_spec. destruct (sortMap cs) as [| |sorted] eqn:Esm; intros HS; [destruct HS| |].
-  - subst S. split.
-    + apply SortChanges_backward. apply (cyc_backward cs HWF).
-    + apply (cyc_split cs c HWF Hcons (Hex eq_refl)).
-  - destruct HS as [Hp Hs]. split.
+  intros HWF Hcons. unfold detach_spec. destruct (sortMap cs) as [| |sorted] eqn:Esm; intros HS; [destruct HS| |].
+  - subst S. apply (cyc_sorted_out cs c HWF Hcons).
+  - destruct HS as [Hp Hs]. exists (partition_changes S). split; [|split].
     + apply SortChanges_backward. apply (acyc_backward cs HWF sorted S Esm Hp Hs).
+    + apply Permutation_sym. apply partition_perm.
     + apply (acyc_split cs HWF c sorted S Hcons Esm Hp Hs).
 Qed.
 
-Lemma except_ordered cs :
-  (sortMap cs = SMCycle -> no_repoint_to_added cs) -> (sortMap cs = SMCycle -> repoint_ordered cs).
-Proof. intros H E. apply no_repoint_ordered. apply H. exact E. Qed.
-
-Theorem safe_except cs c S :
-  WF cs -> consistent c cs ->
-  (sortMap cs = SMCycle -> no_repoint_to_added cs) ->
-  detach_spec cs S ->
-  SortChanges S = Some (partition_changes S) /\ exists c', replay (partition_changes S) c = Some c'.
+Theorem safe_any_tiebreak cs c S :
+  WF cs -> consistent c cs -> detach_spec cs S ->
+  exists out c', SortChanges S = Some out /\ replay out c = Some c'.
 Proof.
-  intros HWF Hcons Hex HS.
-  destruct (safe_ordered cs c S HWF Hcons (except_ordered cs Hex) HS) as [H1 H2].
-  split; [exact H1|apply (split_replay_ok _ _ H2)].
+  intros HWF Hcons HS. destruct (safe_split cs c S HWF Hcons HS) as [out [H1 [_ H2]]].
+  destruct (split_replay_ok _ _ H2) as [c' Hc]. exists out, c'. split; assumption.
 Qed.
 
-Theorem plan_safe_except cs c :
-  WF cs -> consistent c cs ->
-  (sortMap cs = SMCycle -> no_repoint_to_added cs) ->
-  exists l c', plan cs = POk l /\ replay l c = Some c'.
-Proof.
-  intros HWF Hcons Hex. destruct (DetachCycles_total cs) as [S HS].
-  destruct (safe_except cs c S HWF Hcons Hex (DetachCycles_spec cs S HS)) as [H1 [c' H2]].
-  exists (partition_changes S), c'. split; [|exact H2]. unfold plan. rewrite HS, H1. reflexivity.
-Qed.
-
-(** the exception is exact: with a cycle, the plan replays iff every re-pointed key whose new parent
-    is created by the change set comes after that AddTable in the change list *)
-Lemma replay_tcs_some_tabs t : forall tcs st c', replay_tcs t st tcs = Some c' ->
-  forall f, In f (flat_map tc_added tcs) -> In (t_name (f_ref f)) (c_tabs st).
-Proof.
-  induction tcs as [|tc tcs IH]; intros st c' H f Hf; [destruct Hf|].
-  simpl in H. destruct (replay_tc t st tc) as [c1|] eqn:E; [|discriminate].
-  simpl in Hf. apply in_app_or in Hf. destruct Hf as [Hf|Hf].
-  - destruct tc as [g|g|from to|k]; simpl in Hf; try (destruct Hf; fail); destruct Hf as [<-|[]]; simpl in E.
-    + destruct (mem (t_name (f_ref g)) (c_tabs st)) eqn:Em; [apply mem_In; exact Em|discriminate].
-    + destruct (mem (t_name (f_ref to)) (c_tabs st)) eqn:Em; [apply mem_In; exact Em|discriminate].
-  - assert (Et : c_tabs c1 = c_tabs st).
-    { destruct tc; simpl in E; try (destruct (mem _ _)); inversion E; reflexivity. }
-    rewrite <- Et. apply (IH c1 c' H f Hf).
-Qed.
-
-Lemma cyc_replay_ordered cs c :
-  WF cs -> consistent c cs ->
-  (exists c', replay (partition_changes (detachReferences cs)) c = Some c') -> repoint_ordered cs.
-Proof.
-  intros HWF Hcons [c' Hr] pre t tcs post from to Ecs Hin Ha.
-  destruct (in_dec Nat.eq_dec (t_name (f_ref to)) (flat_map adds pre)) as [Hyes|Hno]; [exact Hyes|exfalso].
-  assert (Hrest : In (ModifyFK from to) (filter not_addfk tcs)) by (apply filter_In; split; [exact Hin|reflexivity]).
-  assert (Hne : filter not_addfk tcs <> []) by (intros E; rewrite E in Hrest; destruct Hrest).
-  destruct (planned_split pre t tcs post Hne) as [B EB]. rewrite <- Ecs in EB. rewrite EB in Hr.
-  rewrite replay_app in Hr.
-  destruct (replay (filter (fun x => negb (is_drop x)) (flat_map det_planned pre)) c) as [st|] eqn:Est; [|discriminate].
-  simpl in Hr. destruct (mem (t_name t) (c_tabs st)); [|discriminate].
-  destruct (replay_tcs (t_name t) st (filter not_addfk tcs)) as [c1|] eqn:Etcs; [|discriminate].
-  assert (Hto : In to (flat_map tc_added (filter not_addfk tcs))).
-  { apply in_flat_map. exists (ModifyFK from to). split; [exact Hrest|left; reflexivity]. }
-  pose proof (replay_tcs_some_tabs _ _ _ _ Etcs to Hto) as Htab.
-  apply (after_tabs_upper _ c st _ Est) in Htab. destruct Htab as [Htab|Htab].
-  - apply (cn_adds c cs Hcons _ Ha Htab).
-  - rewrite adds_filter_nd, planned_adds in Htab. contradiction.
-Qed.
-
-Theorem plan_safe_exact cs c :
-  WF cs -> consistent c cs ->
-  exists l, plan cs = POk l /\
-    ((exists c', replay l c = Some c') <-> (sortMap cs = SMCycle -> repoint_ordered cs)).
+Theorem plan_safe cs c :
+  WF cs -> consistent c cs -> exists l c', plan cs = POk l /\ replay l c = Some c'.
 Proof.
   intros HWF Hcons. destruct (DetachCycles_total cs) as [S HS].
-  pose proof (DetachCycles_spec cs S HS) as Hspec.
-  assert (Hsort : SortChanges S = Some (partition_changes S)).
-  { unfold detach_spec in Hspec. destruct (sortMap cs) as [| |sorted] eqn:Esm; [destruct Hspec| |].
-    - subst S. apply SortChanges_backward. apply (cyc_backward cs HWF).
-    - destruct Hspec as [Hp Hs]. apply SortChanges_backward. apply (acyc_backward cs HWF sorted S Esm Hp Hs). }
-  exists (partition_changes S). split; [unfold plan; rewrite HS, Hsort; reflexivity|]. split.
-  - intros Hr Ecyc. unfold detach_spec in Hspec. rewrite Ecyc in Hspec. subst S.
-    apply (cyc_replay_ordered cs c HWF Hcons Hr).
-  - intros Hex. destruct (safe_ordered cs c S HWF Hcons Hex Hspec) as [_ H2]. apply (split_replay_ok _ _ H2).
+  destruct (safe_any_tiebreak cs c S HWF Hcons (DetachCycles_spec cs S HS)) as [out [c' [H1 H2]]].
+  exists out, c'. split; [|exact H2]. unfold plan. rewrite HS, H1. reflexivity.
+Qed.
+
+(* without a cycle SortChanges only moves the drops behind the other changes *)
+Theorem acyclic_sort_is_partition cs S sorted :
+  WF cs -> sortMap cs = SMOk sorted -> detach_spec cs S -> SortChanges S = Some (partition_changes S).
+Proof.
+  intros HWF Esm HS. unfold detach_spec in HS. rewrite Esm in HS. destruct HS as [Hp Hs].
+  apply SortChanges_backward. apply (acyc_backward cs HWF sorted S Esm Hp Hs).
 Qed.
 
 (** * Detaching loses no declared foreign key *)
